@@ -543,7 +543,7 @@ def exec_step(step, sess, chains, audit):
         elif what == 'data_path':
             obs['paths'] = {n: (str(t.data_path) if t.data_path is not None else None) for n, t in c.tasks.items()}
         elif what == 'run_info':
-            obs['run_info'] = {n: t.run_info for n, t in c.tasks.items()}
+            obs['run_info'] = {n: rt.plain_records(t.run_info) for n, t in c.tasks.items()}
         elif what == 'log':
             obs['log'] = {n: t.log for n, t in c.tasks.items()}
         elif what == 'readable':
